@@ -8,6 +8,7 @@ import (
 	"path/filepath"
 
 	"github.com/cube2222/octosql/config"
+	"github.com/cube2222/octosql/plugins/verifhook"
 )
 
 var octosqlFileExtensionHandlersFile = func() string {
@@ -54,9 +55,11 @@ func saveFileExtensionHandlers(handlers map[string]string) error {
 	}
 	// Write to a temporary file and rename, so that an interrupted write never leaves a truncated file behind.
 	tmpPath := octosqlFileExtensionHandlersFile + ".tmp"
-	if err := os.WriteFile(tmpPath, data, 0644); err != nil {
+	verifhook.CrashPoint("handlers:write-tmp")
+	if err := os.WriteFile(tmpPath, verifhook.Tear("handlers:write-tmp", data), 0644); err != nil {
 		return fmt.Errorf("couldn't write file extension handlers to file: %w", err)
 	}
+	verifhook.CrashPoint("handlers:move-into-place")
 	if err := os.Rename(tmpPath, octosqlFileExtensionHandlersFile); err != nil {
 		return fmt.Errorf("couldn't move file extension handlers file into place: %w", err)
 	}
